@@ -5,8 +5,11 @@
    [drain remove st rh fuel l s] is the per-attempt iterator of findRoute called at most [fuel]
    times (every dial fails) on the route's backend list [l] with strategy [st]; [remove] is the
    removal step: [spec_remove] (drop every entry naming the selected backend) is what the property
-   demands, [impl_remove] (drop the first entry whose normalised string equals the selected one's)
-   is the code.  [canon] is strategy.go's canonicalBackendAddress. *)
+   demands; [impl_remove] is today's code (fix 426c657), proved equal to it; [old_remove] (drop the
+   first entry whose normalised string equals the selected one's) is the PRE-FIX code, kept for
+   the record of the fixed findings C30-1 / C30-2.  [canon] is strategy.go's
+   canonicalBackendAddress.  Findings C30-3 (round-robin lost updates, fix 3b8fde0) and C30-4 (rng
+   data race, fix 968926e) are fixed as well; the judge excuses nothing any more. *)
 From Coq Require Import List NArith Bool.
 From Verif Require Import Base.Hex Base.Conc Base.Lin Model.Strategy Proofs.C30 Proofs.C30_Count.
 Import ListNotations.
@@ -18,41 +21,67 @@ Open Scope N_scope.
    reports exhaustion every backend of the route has been tried, and it reports exhaustion after
    at most |l| dials. *)
 Theorem C30_each_distinct_once : forall st rh fuel l s ys ended s',
+  drain impl_remove st rh fuel l s = (ys, ended, s') ->
+  NoDup (map canon ys)
+  /\ (forall y, In y ys -> In y l)
+  /\ (ended = true -> forall b, In b l -> In (canon b) (map canon ys))
+  /\ ((length l < fuel)%nat -> ended = true).
+Proof. exact each_distinct_once_impl. Qed.
+Print Assumptions C30_each_distinct_once.
+
+Theorem C30_attempt_bounded : forall st rh fuel l s ys ended s',
+  drain impl_remove st rh fuel l s = (ys, ended, s') -> (length ys <= length l)%nat.
+Proof. exact attempt_bounded_impl. Qed.
+Print Assumptions C30_attempt_bounded.
+
+(* how the two theorems above are obtained: today's loop is the spec's loop *)
+Theorem C30_remove_impl_is_spec : forall sel l, impl_remove sel l = spec_remove sel l.
+Proof. exact impl_remove_is_spec. Qed.
+Print Assumptions C30_remove_impl_is_spec.
+
+Theorem C30_drain_impl_is_spec : forall st rh fuel l s,
+  drain impl_remove st rh fuel l s = drain spec_remove st rh fuel l s.
+Proof. exact drain_impl_is_spec. Qed.
+Print Assumptions C30_drain_impl_is_spec.
+
+Theorem C30_each_distinct_once_spec : forall st rh fuel l s ys ended s',
   drain spec_remove st rh fuel l s = (ys, ended, s') ->
   NoDup (map canon ys)
   /\ (forall y, In y ys -> In y l)
   /\ (ended = true -> forall b, In b l -> In (canon b) (map canon ys))
   /\ ((length l < fuel)%nat -> ended = true).
 Proof. exact each_distinct_once. Qed.
-Print Assumptions C30_each_distinct_once.
+Print Assumptions C30_each_distinct_once_spec.
 
-Theorem C30_attempt_bounded : forall st rh fuel l s ys ended s',
-  drain spec_remove st rh fuel l s = (ys, ended, s') -> (length ys <= length l)%nat.
-Proof. exact attempt_bounded. Qed.
-Print Assumptions C30_attempt_bounded.
+(* today's code on the inputs of the fixed findings *)
+Theorem C30_impl_on_former_probes :
+  fst (fst (drain impl_remove 0 [] 5 ex_aliases init_state)) = [hd [] ex_aliases]
+  /\ drain impl_remove 0 [] 5 [ex_unparsable] init_state = ([ex_unparsable], true, init_state).
+Proof. exact impl_on_former_probes. Qed.
+Print Assumptions C30_impl_on_former_probes.
 
-(* The code's loop does not have this property.  Finding C30-1: three spellings of one backend are
-   all dialled in one attempt (the spec dials one). *)
-Theorem C30_each_distinct_once_refuted :
+(* Facts about the PRE-FIX loop.  Finding C30-1 (fixed by 426c657): three spellings of one backend
+   were all dialled in one attempt (the spec, and today's code, dial one). *)
+Theorem C30_old_each_distinct_once_refuted :
   has_alias ex_aliases = true
-  /\ fst (fst (drain impl_remove 0 [] 5 ex_aliases init_state)) = ex_aliases
+  /\ fst (fst (drain old_remove 0 [] 5 ex_aliases init_state)) = ex_aliases
   /\ map canon ex_aliases = repeat (canon (hd [] ex_aliases)) 3
   /\ fst (fst (drain spec_remove 0 [] 5 ex_aliases init_state)) = [hd [] ex_aliases].
-Proof. exact each_distinct_once_refuted. Qed.
-Print Assumptions C30_each_distinct_once_refuted.
+Proof. exact old_each_distinct_once_refuted. Qed.
+Print Assumptions C30_old_each_distinct_once_refuted.
 
-(* Finding C30-2: an address netutil.Parse rejects ("a:b.int") is never removed - the iterator
-   yields it on every call and never reports exhaustion, for any number of calls. *)
-Theorem C30_attempt_never_ends_refuted : forall fuel s,
-  drain impl_remove 0 [] fuel [ex_unparsable] s = (repeat ex_unparsable fuel, false, s).
-Proof. exact attempt_never_ends_refuted. Qed.
-Print Assumptions C30_attempt_never_ends_refuted.
+(* Finding C30-2 (fixed by 426c657): an address netutil.Parse rejects ("a:b.int") was never removed
+   - the old iterator yielded it on every call and never reported exhaustion. *)
+Theorem C30_old_attempt_never_ends_refuted : forall fuel s,
+  drain old_remove 0 [] fuel [ex_unparsable] s = (repeat ex_unparsable fuel, false, s).
+Proof. exact old_attempt_never_ends_refuted. Qed.
+Print Assumptions C30_old_attempt_never_ends_refuted.
 
 (* "sequential: config order" - the attempt yields the configured list with later aliases dropped;
    without aliases that is the list itself. *)
 Theorem C30_order_sequential : forall rh fuel l s,
-  fst (fst (drain spec_remove 0 rh fuel l s)) = dedup fuel l.
-Proof. exact order_sequential. Qed.
+  fst (fst (drain impl_remove 0 rh fuel l s)) = dedup fuel l.
+Proof. exact order_sequential_impl. Qed.
 Print Assumptions C30_order_sequential.
 
 Theorem C30_order_sequential_no_alias : forall l fuel,
